@@ -614,6 +614,18 @@ pub(crate) fn c06_run(rep: &mut Report, wf: &Wf, plan: &Plan, sched: &str, refer
     let viol = |rep: &mut Report, sig: &str, msg: String| {
         rep.violation(format!("C06:{sig}"), format!("{} schedule {sched}: {msg}; head={}B payload={}B head_hex={}", wf.label, wf.head_len, payload.len(), hex_short(&wf.bytes[..wf.head_len], 300)), replay.to_vec());
     };
+    // The async entry points are compared with the async parser's OWN unfragmented result: C06 is fragmentation independence of each
+    // parser, not agreement between the two (that is C05's clause; a change that makes the parsers differ alike under every
+    // schedule keeps C06). If the async parser cannot read the message unfragmented, the blocking result stays the reference
+    // (the `full` schedule then reports the error itself).
+    let async_reference: Model = match async_parse(&wf.bytes, Plan::full()).0 {
+        Outcome::Ok(m) => {
+            let mut m = *m;
+            m.data = payload.to_vec();
+            m
+        }
+        _ => reference.clone(),
+    };
     // --- blocking parse_parts: reader must sit exactly on the first payload byte
     rep.eval();
     let (src, shared) = Scripted::new(wf.bytes.clone(), plan.clone());
@@ -704,8 +716,8 @@ pub(crate) fn c06_run(rep: &mut Report, wf: &Wf, plan: &Plan, sched: &str, refer
                 other => viol(rep, "async-parts-rest", format!("reading the rest failed: {:?}", other)),
             }
             m.data = payload.to_vec();
-            if &m != reference {
-                viol(rep, "async-parts-result", format!("result differs from the unfragmented parse: {:?}", mirror::diff(reference, &m)));
+            if m != async_reference {
+                viol(rep, "async-parts-result", format!("result differs from the unfragmented parse: {:?}", mirror::diff(&async_reference, &m)));
             }
         }
         Ok((Exec::Ready(Err(e)), _)) => viol(rep, "async-parts-error", format!("parse_parts failed: {:?}", errk(&e))),
@@ -759,8 +771,8 @@ pub(crate) fn c06_run(rep: &mut Report, wf: &Wf, plan: &Plan, sched: &str, refer
             }
             let mut m2 = m;
             m2.data = payload.to_vec();
-            if &m2 != reference {
-                viol(rep, "async-parse-result", format!("result differs from the unfragmented parse: {:?}", mirror::diff(reference, &m2)));
+            if m2 != async_reference {
+                viol(rep, "async-parse-result", format!("result differs from the unfragmented parse: {:?}", mirror::diff(&async_reference, &m2)));
             }
         }
         Ok(Exec::Ready(Err(e))) => viol(rep, "async-parse-error", format!("parse failed: {e:?}")),
@@ -958,7 +970,7 @@ pub fn run_c06(args: &Args, tier: &str, seed: u64) -> Report {
         rep
     });
     let mut rep = merge_all("C06", tier, seed, parts);
-    rep.rule = format!("Well-formed messages (G1/G2, short messages, and the hand-enumerated shapes with every boundary length) x payloads (empty, 1 byte, tag look-alikes, a second complete IPP message, random up to MiBs) x read schedules (whole: the source honours the full requested size so any read-ahead over-consumes; 1-byte; uniform; random compositions with Interrupted (blocking) / Pending immediate+deferred (async) steps; Interrupted/Pending before every read; ALL 2^(n-1) compositions of the header+attributes for messages of 9..{max_all} bytes). Monitors on the scripted source's log: bytes delivered at return of parse / parse_parts == offset just past the end-of-attributes tag (computed by the reference decoder); reader from parse_parts yields exactly the rest; payload byte-identical; result == unfragmented result. Four entry points per (message, schedule): blocking/async x parse/parse_parts; plus two cross reads per message: the payload of an async-parsed message through std::io::Read and of a blocking-parsed message through AsyncRead, with not-ready / interrupted results inside the payload region. evaluations = entry-point runs; distinct_nontrivial = distinct messages carrying a payload.");
+    rep.rule = format!("Well-formed messages (G1/G2, short messages, and the hand-enumerated shapes with every boundary length) x payloads (empty, 1 byte, tag look-alikes, a second complete IPP message, random up to MiBs) x read schedules (whole: the source honours the full requested size so any read-ahead over-consumes; 1-byte; uniform; random compositions with Interrupted (blocking) / Pending immediate+deferred (async) steps; Interrupted/Pending before every read; ALL 2^(n-1) compositions of the header+attributes for messages of 9..{max_all} bytes). Monitors on the scripted source's log: bytes delivered at return of parse / parse_parts == offset just past the end-of-attributes tag (computed by the reference decoder); reader from parse_parts yields exactly the rest; payload byte-identical; result == the same parser's unfragmented result (agreement between the two parsers is C05's clause, not judged here). Four entry points per (message, schedule): blocking/async x parse/parse_parts; plus two cross reads per message: the payload of an async-parsed message through std::io::Read and of a blocking-parsed message through AsyncRead, with not-ready / interrupted results inside the payload region. evaluations = entry-point runs; distinct_nontrivial = distinct messages carrying a payload.");
     if only.is_none() {
         rep.require(rep.counters.get("schedules_compositions").copied().unwrap_or(0) > 50_000, "exhaustive compositions executed");
         rep.require(rep.counters.get("deferred_wakes").copied().unwrap_or(0) > 1000, "deferred wake-ups observed");
